@@ -108,7 +108,8 @@ Step(t, e) ==
     [] e.ev = "ed2"    -> ED2(t)
     [] e.ev = "cr"     -> [t EXCEPT !.c = 1, !.pw = FALSE]
     [] e.ev = "nop"    -> t
-    [] e.ev \in {"keypad", "kpush", "kpop", "pointer", "appid"} -> t   \* no display effect (see specs/life/Modes.tla)
+    [] e.ev \in {"keypad", "kpush", "kpop", "pointer", "appid", "query", "side", "ready"} -> t   \* no display effect (see specs/life)
+    [] e.ev = "gfx"    -> [t EXCEPT !.unk = @ + 1]          \* graphics: display effect not modelled here (C20)
     [] e.ev = "scramble" -> Scramble(t)
     [] e.ev = "resize" -> Resize(t, e.rows, e.cols)
     [] OTHER           -> [t EXCEPT !.unk = @ + 1]
